@@ -463,12 +463,12 @@ def main(argv=None):
                 print('replay file has no unit')
                 return 2
             run.seed = rp.get('seed', a.seed)
-            run.workers('vf.checks.' + prop.lower(), [unit], nworkers=1)
+            run.workers('vf.checks.' + prop.lower(), [unit], nworkers=1, shim_t13=getattr(mod, 'SHIM_T13', False))
         elif hasattr(mod, 'main'):
             mod.main(run)
         else:
             run.workers('vf.checks.' + prop.lower(), mod.plan(a.tier, a.seed), nworkers=run.nworkers,
-                        stall_s=getattr(mod, 'STALL_S', 600))
+                        stall_s=getattr(mod, 'STALL_S', 600), shim_t13=getattr(mod, 'SHIM_T13', False))
     except Exception:
         import traceback
         run.inconclusive_because('orchestrator exception: ' + traceback.format_exc()[-2000:])
